@@ -121,6 +121,12 @@ def truth_fragments(lib):
             out.append({'id': 2 * i, 'key': -(2 * i) - 1000000, 'contig': -1, 'site': None, 'reads': reads, 'arrival': (-1, 0, i)})
             continue
         c = contig_id(lib, f['contig'])
+        if f.get('placed'):
+            # unmapped record placed on a contig: rejected ('unmapped R1'), anchored at its coordinate; htslib treats it as 1 bp
+            out.append({'id': 2 * i, 'key': -(2 * i) - 1000000, 'contig': c, 'site': f['start'],
+                        'reads': [[2 * i, f['start'], f['start'] + 1]],
+                        'arrival': (c, f['start'] if f['placed'] == 'single' else 10 ** 12, i)})
+            continue
         site = f['start'] + f['len'] - 4 if f['rev'] else f['start']
         k = key_of((c, site, f['rev'], f['sample'])) if f['catg'] else -(2 * i) - 1000000
         r1 = [2 * i, f['start'], f['start'] + f['len']]
@@ -467,6 +473,23 @@ class Prop(fw.PropBase):
             # the contig-per-process job list (D8, C05) is repaired in /repo: small contigs, a lone small contig and
             # unmapped reads are part of the main stream; only fragments longer than the margin stay outside the property
             cases.append({'stream': 'main' if kind == 'd8' else 'exposed:' + kind, 'lib': lib, 'runs': runs, 'B': B})
+        # contigs whose only records are unmapped reads placed on them (idxstats: 0 mapped, n unmapped): they must get bins
+        # in region mode and a job in contig-per-process mode (seed C08-8); added to about half of the libraries, small and large
+        for c in cases:
+            if c['stream'] == 'main' and not c.get('deep') and rng.random() < 0.5:
+                lib = c['lib']
+                big = rng.random() < 0.3
+                name = 'chrU%d' % len(lib['contigs'])
+                clen = (100000 + rng.randint(0, 999)) if big else c['B'] * rng.randint(1, 3) + rng.choice([0, 0, 123])
+                lib['contigs'].insert(rng.randint(0, len(lib['contigs'])), [name, clen])
+                lim = min(clen, 6000)
+                for _ in range(rng.randint(1, 3)):
+                    lib['frags'].append({'contig': name, 'start': rng.choice([0, lim - 1, rng.randint(0, lim - 1), min(lim - 1, c['B'])]), 'len': 30,
+                                         'rev': False, 'catg': True, 'sample': rng.randint(0, 2), 'umi': rng.choice(UMIS_FAR), 'r2': None,
+                                         'dup': False, 'placed': rng.choice(['single', 'paired'])})
+                c['placed_only_contig'] = name
+        if not quick or os.environ.get('C08_DEEP', '1') == '1':
+            cases.append(self.deep_case())
         # options that only affect bookkeeping must not change the output (head / max_time_per_segment change it on purpose
         # and are not used; blacklist_path raises NotImplementedError): job BED file, temp folder, ignore_bam_issues, the
         # unused molecule_iterator argument.  -jobbed is refused (assert) in contig-per-process mode.
@@ -478,6 +501,29 @@ class Prop(fw.PropBase):
                     run['job_bed'] = rng.choice([None, None, 'bed', 'bed.gz'])
                     run['pass_iterator'] = rng.random() < 0.7
         return cases
+
+    def deep_case(self):
+        """ONE deep library: > 10,000 fragments on one contig so that the ejection check of MoleculeIterator
+        (check_eject_every = 10,000 buffered fragments) runs in the serial pass; every molecule has a short fragment and
+        duplicates reaching up to ~1 kb further (the ejection margin cache_size/2 must exceed that, seed C08-9); tiles restart
+        the counter, so serial and tiled disagree when the serial pass ejects a molecule too early."""
+        rng = self.rng
+        frags = []
+        n_mol = 4200
+        for j in range(n_mol):
+            site = 30 * j + 10
+            sample, umi = rng.randint(0, 2), rng.choice(UMIS_FAR)
+            # a short fragment arrives first, a duplicate ~900 bp longer arrives much later; half of the molecules also
+            # have a middle one (which widens the span early and so protects against premature ejection)
+            exts = [rng.randint(90, 130)] + ([rng.randint(400, 600)] if rng.random() < 0.5 else []) + [rng.randint(930, 1000)]
+            for ext in exts:
+                frags.append({'contig': 'chr1', 'start': site, 'len': 40, 'rev': False, 'catg': True, 'sample': sample, 'umi': umi,
+                              'r2': {'start': site + ext - 30, 'len': 30}, 'dup': False})
+        clen = 140000
+        lib = {'contigs': [['chr1', clen], ['chr2', 5000]], 'frags': frags + [
+            {'contig': 'chr2', 'start': 700, 'len': 40, 'rev': False, 'catg': True, 'sample': 0, 'umi': 'AAA', 'r2': None, 'dup': False}]}
+        runs = [{'mode': 'tiled', 'bp_per_segment': 20000, 'fragment_size': 1000, 'bp_per_job': 40000, 'use_pool': True, 'n_threads': 3}]
+        return {'stream': 'main', 'lib': lib, 'runs': runs, 'B': 20000, 'deep': True}
 
     # ------------------------------------------------------------------ evaluation of one library run (no model needed)
     @staticmethod
@@ -559,7 +605,7 @@ class Prop(fw.PropBase):
         corpus = self.load_corpus()
         libs = corpus + libs
         res = fw.run_impl('impl_c08.py', {'loops': loops, 'chunks': chunks,
-                                          'libs': [{'lib': c['lib'], 'runs': c['runs']} for c in libs]}, timeout=3000)
+                                          'libs': [{'lib': c['lib'], 'runs': c['runs'], 'deep': bool(c.get('deep'))} for c in libs]}, timeout=3000)
         self.loops, self.chunks, self.libs, self.res = loops, chunks, libs, res
         dis = []
         # ---- end to end (specification on the implementation's output; no model involved)
@@ -644,7 +690,7 @@ class Prop(fw.PropBase):
             # per task prediction of the model (which reads every task writes) and its precondition / owner count
             m0_in, m1_in, idx = [], [], []
             for k, (case, run, rr, ev) in enumerate(evals):
-                if ev.get('error') or rr.get('jobs') is None:
+                if ev.get('error') or rr.get('jobs') is None or case.get('deep'):
                     continue
                 jobs = [[norm_task(case['lib'], t) for t in job] for job in rr['jobs']]
                 m0_in.append([jobs, [enc_frag(f) for f in ev['frags']], 0])
@@ -703,7 +749,7 @@ class Prop(fw.PropBase):
         if res is None:
             self.loops, self.chunks, self.libs = self.loop_cases(), self.chunk_cases(), self.load_corpus() + self.lib_cases()
             res = fw.run_impl('impl_c08.py', {'loops': self.loops, 'chunks': self.chunks,
-                                              'libs': [{'lib': c['lib'], 'runs': c['runs']} for c in self.libs]}, timeout=3000)
+                                              'libs': [{'lib': c['lib'], 'runs': c['runs'], 'deep': bool(c.get('deep'))} for c in self.libs]}, timeout=3000)
         best = None
         for c, r in zip(self.loops, res['loops']):
             t = norm_task(None, c['task'])
@@ -756,7 +802,10 @@ class Prop(fw.PropBase):
                                     'expected': 'the records of the serial pass, each written by exactly one task'})
         if bestl:
             w = bestl[1]
-            small = self.shrink(w['input']['lib'], w['input']['run'])
+            small = self.shrink(w['input']['lib'], w['input']['run']) if len(w['input']['lib']['frags']) <= 500 else None
+            if len(w['input']['lib']['frags']) > 500:
+                w['input'] = {'lib': 'deep library of Prop.deep_case() (seed %d): %d fragments, contigs %r' % (self.seed, len(w['input']['lib']['frags']), w['input']['lib']['contigs']),
+                              'run': w['input']['run'], 'first_differences': w['impl'].get('diff')}
             if small is not None:
                 w['input']['lib'] = small
                 w['what'] += ' (library shrunk to %d fragments)' % len(small['frags'])
